@@ -40,6 +40,8 @@ class Evaluator(Run):
         g = self.ctx.lookup_global(self, name)
         if g is not None:
             return self.unnull(g, name)
+        if not self.pure:
+            self.ctx.check_not_memoised(self, name, node)
         return const(DottedName(name))
 
     def unnull(self, v, label):
@@ -445,6 +447,13 @@ class Evaluator(Run):
         if b.t.kind == "union":
             b = self.project(b, lambda t: t.kind != "none", lab)
         ka, kb = a.t.kind, b.t.kind
+        if ka == "opaque" and not a.is_const:
+            # operator on an opaque object (e.g. pathlib `/`): its declared dunder external
+            from . import models
+
+            dunder = {ast.Div: "__truediv__", ast.Add: "__add__", ast.Sub: "__sub__", ast.Mult: "__mul__", ast.BitOr: "__or__", ast.Mod: "__mod__"}.get(type(op))
+            if dunder is not None:
+                return models.call_method(self, a, dunder, [b], {}, node)
         if isinstance(op, ast.Add):
             if ka == "str" and kb == "str":
                 return V(T.Str, z3.Concat(a.z, b.z))
